@@ -166,6 +166,7 @@ func Load(lc LoadConfig) (*Prog, error) {
 		return nil, fmt.Errorf("no module packages loaded")
 	}
 	p.resolveRoles()
+	p.computeFieldAliases()
 	p.computeAliases()
 	return p, nil
 }
